@@ -173,6 +173,7 @@ def client_build(c, mat):
             ],
             grain_model="hh93",
             rate_modifier={2: "3e-17 * sqrt(Tgas / 300.0)"},
+            ode_modifier={"H2": {"factors": ["-hloss", "0.5 * gform"], "reactants": [["H2"], ["H", "H"]]}, "H": {"factors": ["gform"], "reactants": [["H"]]}},
         )
     raise HarnessError(c)
 
